@@ -325,6 +325,10 @@ pub fn cfg_list(full: bool) -> Vec<PairCfg> {
     v.push(mk("retry", &|c| c.retry = true));
     v.push(mk("cert500", &|c| c.cert_len = 500));
     v.push(mk("cert10k", &|c| c.cert_len = 10_000));
+    v.push(mk("idle30s", &|c| {
+        c.client.idle_ms = Some(30_000);
+        c.server.idle_ms = Some(20_000);
+    }));
     v.push(mk("keepalive", &|c| {
         c.client.keep_alive_ms = Some(1000);
         c.server.keep_alive_ms = Some(1000);
@@ -391,6 +395,8 @@ pub enum Op {
     SpuriousTimeout(usize),
     SpuriousPollTransmit(usize),
     MaxDatagrams(usize),
+    /// Extra settle round: poll_transmit, poll_timeout, poll_endpoint_events, poll
+    SpuriousSettle(usize),
 }
 
 pub fn apply_op(p: &mut StdPair, op: &Op) {
@@ -424,7 +430,7 @@ pub fn apply_op(p: &mut StdPair, op: &Op) {
     let node = match op {
         Op::KeyUpdate(n) | Op::Ping(n) | Op::SetRecvWindow(n, _) | Op::SetSendWindow(n, _)
         | Op::SetMaxStreams(n, _, _) | Op::PathChanged(n) | Op::LocalAddrChanged(n)
-        | Op::Close(n, _) | Op::SpuriousTimeout(n) | Op::SpuriousPollTransmit(n) => *n,
+        | Op::Close(n, _) | Op::SpuriousTimeout(n) | Op::SpuriousPollTransmit(n) | Op::SpuriousSettle(n) => *n,
         _ => unreachable!(),
     };
     let Some(ch) = node_conn(p, node) else { return };
@@ -440,7 +446,9 @@ pub fn apply_op(p: &mut StdPair, op: &Op) {
             Op::LocalAddrChanged(_) => conn.local_address_changed(),
             Op::Close(_, code) => conn.close(now, VarInt::from_u32(*code), bytes::Bytes::from_static(b"bye")),
             Op::SpuriousTimeout(_) => conn.handle_timeout(now),
-            Op::SpuriousPollTransmit(_) => {}
+            Op::SpuriousPollTransmit(_) | Op::SpuriousSettle(_) => {
+                let _ = conn.poll_timeout();
+            }
             _ => {}
         }
     }
